@@ -128,7 +128,7 @@ class C07(Check):
         self.stats[k] = self.stats.get(k, 0) + n
 
     def budget(self, tier, escalated):
-        n = 300 if tier == 'quick' else 12000
+        n = 600 if tier == 'quick' else 12000
         return n * (3 if escalated and tier == 'quick' else 1)
 
     def nontrivial(self, sample):
@@ -148,6 +148,28 @@ class C07(Check):
                 ans = 'err ' + fl.exc_name(e)
             self.bump('hdr=' + ans.split()[0] + (':' + ans.split()[1] if ans.startswith('err') else ''))
             out.append((f'forms hdr {hs(s)}', ans, dict(kind='hdr', line=s, tricky=any(c in s for c in ';=\\é'))))
+        if n >= 5000:
+            # thorough tier: exhaustive small scope for the two direct regex functions
+            import itertools
+            for k in range(0, 8):
+                for t in itertools.product('a=;" ', repeat=k):
+                    if k == 7 and t.count('"') < 2:
+                        continue
+                    s = 'X:' + ''.join(t)
+                    try:
+                        ans = show_header(FieldStorage.parse_header(s))
+                    except Exception as e:
+                        ans = 'err ' + fl.exc_name(e)
+                    out.append((f'forms hdr {hs(s)}', ans, dict(kind='hdr', line=s, tricky=False)))
+            atoms_x = ['x', ';', '\n', '"', 'boundary=', ' ']
+            for k in range(0, 6):
+                for t in itertools.product(atoms_x, repeat=k):
+                    ct = 'multipart/' + ''.join(t)
+                    rq = Request({'CONTENT_TYPE': ct, 'CONTENT_LENGTH': '0', 'wsgi.input': io.BytesIO(b'')})
+                    mk = rq.body.ombott_markup
+                    ans = 'none' if mk is None else 'some ' + hs(mk._markuper.boundary[2:].decode('utf8'))
+                    out.append((f'forms bnd {hs(ct)}', ans, dict(kind='bnd', ct=ct, tricky=False)))
+            self.bump('exhaustive_small_scope', 1)
         # B. splitlines
         alpha = ['a', '\n', '\r', '\x0b', '\x0c', '\x1c', '\x1d', '\x1e', '\x85', ' ', ' ', '\x1f', ' ', '\r\n', 'é']
         for _ in range(n):
@@ -306,9 +328,16 @@ class C07(Check):
         mixed = fl.mixed_kind_names(fields)
         for name, e, g in zip(('forms', 'files', 'POST'), exp, got):
             if e != g:
-                if mixed:
-                    return 'dup-name-mixed-kinds', (f'name {mixed[0]!r} is used by a text field and by an upload: {name} is {g}, '
-                                                    f'expected {e}')
+                if mixed and not case.get('_unmixed'):
+                    # is it the sharing of a name by a text field and an upload that fails, or something else?
+                    renamed = [f if f[0] == 't' else (f[0], f[1] + '\u00b7upload') + tuple(f[2:]) for f in fields]
+                    extra = fl.text_budget(renamed) - fl.text_budget(fields)
+                    other = self._oracle(rig, dict(case, fields=renamed, _unmixed=True,
+                                                   max_memfile=case['max_memfile'] + extra))
+                    if other is None:
+                        return 'dup-name-mixed-kinds', (f'name {mixed[0]!r} is used by a text field and by an upload: {name} is '
+                                                        f'{g}, expected {e}')
+                    return other
                 ek, gk = [x.split('=')[0] for x in e[1:-1].split(';')], [x.split('=')[0] for x in g[1:-1].split(';')]
                 if sorted(ek) != sorted(gk):
                     site = 'field-names' if len(ek) == len(gk) or gk != [''] else 'fields-dropped'
